@@ -237,7 +237,7 @@ static int cs2pf[JPEG_NUMCS] = {
   strerror_s(strerrorBuf, 80, errno); \
   SNPRINTF(this->errStr, JMSG_LENGTH_MAX, "%s(): %s\n%s", FUNCTION_NAME, m, \
            strerrorBuf); \
-  this->isInstanceError = TRUE; \
+  this->isInstanceError = TRUE;  this->jerr.warning = FALSE; \
   SNPRINTF(errStr, JMSG_LENGTH_MAX, "%s(): %s\n%s", FUNCTION_NAME, m, \
            strerrorBuf); \
   retval = -1;  goto bailout; \
@@ -246,7 +246,7 @@ static int cs2pf[JPEG_NUMCS] = {
 #define THROW_UNIX(m) { \
   SNPRINTF(this->errStr, JMSG_LENGTH_MAX, "%s(): %s\n%s", FUNCTION_NAME, m, \
            strerror(errno)); \
-  this->isInstanceError = TRUE; \
+  this->isInstanceError = TRUE;  this->jerr.warning = FALSE; \
   SNPRINTF(errStr, JMSG_LENGTH_MAX, "%s(): %s\n%s", FUNCTION_NAME, m, \
            strerror(errno)); \
   retval = -1;  goto bailout; \
@@ -254,13 +254,14 @@ static int cs2pf[JPEG_NUMCS] = {
 #endif
 #define THROWRV(m, rv) { \
   SNPRINTF(this->errStr, JMSG_LENGTH_MAX, "%s(): %s", FUNCTION_NAME, m); \
-  this->isInstanceError = TRUE;  THROWG(m, rv) \
+  this->isInstanceError = TRUE;  this->jerr.warning = FALSE; \
+  THROWG(m, rv) \
 }
 #define THROW(m)  THROWRV(m, -1)
 #define THROWI(format, val1, val2) { \
   SNPRINTF(this->errStr, JMSG_LENGTH_MAX, "%s(): " format, FUNCTION_NAME, \
            val1, val2); \
-  this->isInstanceError = TRUE; \
+  this->isInstanceError = TRUE;  this->jerr.warning = FALSE; \
   SNPRINTF(errStr, JMSG_LENGTH_MAX, "%s(): " format, FUNCTION_NAME, val1, \
            val2); \
   retval = -1;  goto bailout; \
@@ -1953,8 +1954,11 @@ DLLEXPORT int tj3GetICCProfile(tjhandle handle, unsigned char **iccBuf,
   if (!this->tempICCBuf || !this->tempICCSize) {
     if (iccBuf) *iccBuf = NULL;
     *iccSize = 0;
-    this->jerr.warning = TRUE;
-    THROW("No ICC profile data has been extracted");
+    /* This is a warning rather than a fatal error. */
+    SNPRINTF(this->errStr, JMSG_LENGTH_MAX, "%s(): %s", FUNCTION_NAME,
+             "No ICC profile data has been extracted");
+    this->isInstanceError = TRUE;  this->jerr.warning = TRUE;
+    THROWG("No ICC profile data has been extracted", -1)
   }
 
   *iccSize = this->tempICCSize;
